@@ -59,6 +59,14 @@ class AbstractBasicStatement(AbstractBasicConstruct):
 
         return BasicVar(val, is_str_expr=is_str_exp)
 
+    def reserve_temps_of(self, statement: "AbstractBasicStatement") -> None:
+        """
+        Keeps this statement from handing out the temporaries that another
+        statement of the same line already uses.
+        """
+        self._temps |= statement._temps
+        self._str_temps |= statement._str_temps
+
     def transform_function_to_call(self, exp):
         exp.set_var(self.get_new_temp(exp.is_str_expr))
         self.pre_assignment_statements.append(exp.statement)
